@@ -111,11 +111,12 @@ CLAIMED['C10'] = (
     'DESIGN.md 5/C10',
     'Theorems (all circuits, connector choices incl. internal and repeated base gates, name/prefix options, all assignments): the '
     'frame lemma for add_gate and, through the loop invariant of the modelled connect_circuit, every left connection (connect_left, '
-    'extend_circuit, add_circuit) only adds gates and leaves the value of every base gate unchanged. The whole of connect_circuit '
+    'extend_circuit, add_circuit) only adds gates and leaves the value of every base gate unchanged, AND the attached gates compute the '
+    'attached circuit\'s function of the connector values (loop invariant over the renaming table in topological order). The whole of connect_circuit '
     '(both directions, wrappers, interface recomputation, block creation) is modelled one-to-one and compared with the code field by '
     'field incl. repeated composition; the implementation is checked on every generated pair against the composed evaluation of the '
     'two operands on all assignments, the documented interface, checkWFU and block extraction.',
-    NOTE_COMMON + 'Function of the attached gates, interface lists, right-connect and block extraction are not proved yet (partial); '
+    NOTE_COMMON + 'Interface lists, right-connect and block extraction are not proved yet (partial); '
     '"attached circuit not modified" is correspondence-only.',
     'Lean 4 proof (frame lemma + loop invariant over the modelled connect loop) + field-exact correspondence and composed-evaluation oracle')
 CLAIMED['C13'] = (
